@@ -42,6 +42,27 @@ def main():
         killed = o.returncode == 1 and bool(viol)
         res.append({"name": name, "kind": kind, "property": pid, "applies": True, "killed": killed, "violations": viol[:6], "first_message": (msgs[0][:300] if msgs else None), "wall_s": round(time.time() - t0, 1)})
         print("%-50s %s  %s" % (name, "KILLED " if killed else "MISSED ", (viol[0] if viol else "")[:90]))
+    # behaviour-preserving edits (benign/*.patch: renames, refactors) must leave every check quiet
+    benign = []
+    for p in sorted(glob.glob(os.path.join(VERIF, "benign", "*.patch"))):
+        name = os.path.basename(p)[:-6]
+        if only and name not in only and "benign" not in only:
+            continue
+        r = sh("git apply %s" % p, "/repo")
+        if r.returncode != 0:
+            benign.append({"name": name, "applies": False})
+            print("%-50s does not apply" % name)
+            continue
+        alarms = []
+        try:
+            for i in range(1, 21):
+                o = sh("./check C%02d --tier quick" % i, VERIF)
+                if o.returncode != 0:
+                    alarms.append("C%02d" % i)
+        finally:
+            sh("git checkout -- .", "/repo")
+        benign.append({"name": name, "applies": True, "alarms": alarms})
+        print("%-50s %s" % ("benign/" + name, "QUIET" if not alarms else "FALSE ALARM %s" % alarms))
     # the clean tree must be quiet
     if not only:
         quiet = []
@@ -50,7 +71,7 @@ def main():
             if o.returncode != 0:
                 quiet.append("C%02d" % i)
         print("clean tree: %s" % ("all 20 checks exit 0" if not quiet else "ALARMS: %s" % quiet))
-        json.dump({"repo_head": sh("git rev-parse --short HEAD", "/repo").stdout.strip(), "results": res, "clean_tree_alarms": quiet,
+        json.dump({"repo_head": sh("git rev-parse --short HEAD", "/repo").stdout.strip(), "results": res, "benign": benign, "clean_tree_alarms": quiet,
                    "killed": sum(1 for r in res if r["killed"]), "total": sum(1 for r in res if r["applies"])}, open(os.path.join(VERIF, "selftest_results.json"), "w"), indent=1)
     k = sum(1 for r in res if r["killed"])
     print("killed %d / %d" % (k, sum(1 for r in res if r["applies"])))
